@@ -34,9 +34,44 @@ def guard_inputs(obj, names):
     return obj
 
 
+STATE_GUARD = []   # (calculator, snapshot of its array attributes after construction)
+
+
+def _snapshot(obj):
+    snap = {}
+    for k, v in vars(obj).items():
+        if isinstance(v, np.ndarray) and v.dtype != object:
+            snap[k] = v.copy()
+    return snap
+
+
+def state_mutations():
+    """names of array attributes of guarded calculators (and of their vector-star / star-set objects) that no longer equal the
+    snapshot taken right after construction: evaluating transport coefficients must not change the calculator"""
+    bad = []
+    for label, obj, snap in STATE_GUARD:
+        for k, v0 in snap.items():
+            v = getattr(obj, k, None)
+            if not (isinstance(v, np.ndarray) and v.shape == v0.shape and np.array_equal(v, v0, equal_nan=True)):
+                bad.append("%s.%s" % (label, k))
+    return bad
+
+
 def make(crys, chem, sl, jn, Nthermo, NGFmax=4):
     d = OnsagerCalc.VacancyMediated(crys, chem, sl, jn, Nthermo, NGFmax=NGFmax)
+    if len(STATE_GUARD) < 400:
+        for label, obj in (("VacancyMediated", d), ("vkinetic", d.vkinetic), ("kinetic", d.kinetic), ("thermo", d.thermo)):
+            STATE_GUARD.append((label, obj, _snapshot(obj)))
     return guard_inputs(d, ["Lij", "preene2betafree", "makeLIMBpreene", "maketracerpreene"])
+
+
+def exchange_mixes_stars(d):
+    """True when some solute-vacancy exchange (omega2 jump) maps a pair-state star onto a DIFFERENT star: crystals with
+    several Wyckoff sets, or single-site crystals without an operation reversing the jump vector (point group 3: p3, P3).
+    Exactly the input class of the known finding c08-largeom2-exchange-mixes-stars (the omega2 block then has genuinely mixed
+    even/odd eigenvectors and both omega2 algorithms lose accuracy like eps*f^2)"""
+    ks = d.kinetic
+    return any(ks.index[i] != ks.index[f] for jl in d.om2_jn for (i, f), dx in jl)
 
 
 def random_thermo(d, rng, interact=True, site_energies=True, dyadic=False, tracer=False):
